@@ -34,6 +34,19 @@ fn uc_all(c: char) -> char {
         None => c.to_ascii_uppercase(),
     }
 }
+/// A map that is NOT the identity on ASCII lower case: a, A, b, B -> b; nothing else is a letter (so c is not).
+fn lc_skew(c: char) -> Option<char> {
+    match c {
+        'a' | 'A' | 'b' | 'B' => Some('b'),
+        _ => None,
+    }
+}
+struct SkewLowerCaser;
+impl hyphenate::LowerCaser for SkewLowerCaser {
+    fn to_lower_case(&self, c: char) -> Option<char> {
+        lc_skew(c)
+    }
+}
 /// The same map as a `hyphenate::LowerCaser` (the trait is public; `AsciiLowerCaser` stops at non-ASCII).
 struct HarnessLowerCaser;
 impl hyphenate::LowerCaser for HarnessLowerCaser {
@@ -57,11 +70,13 @@ struct Config {
     /// when set, the exception list goes through `insert_exceptions` as ONE string:
     /// (leading text, separator between entries, trailing text)
     list_api: Option<(String, String, String)>,
+    /// look words up with `SkewLowerCaser` (a, A, b, B -> b); patterns and entries are written with b only
+    skew: bool,
 }
 
 impl Config {
     fn json(&self, word: &str) -> Value {
-        json!({"kind": "lookup", "patterns": self.patterns, "exceptions": self.exceptions, "exceptions_first": self.exceptions_first, "mixed_alphabet": self.mixed, "exception_list_text": self.list_text(), "list_api": self.list_api.as_ref().map(|(a, b, c)| vec![a.clone(), b.clone(), c.clone()]), "word": word,
+        json!({"kind": "lookup", "patterns": self.patterns, "exceptions": self.exceptions, "exceptions_first": self.exceptions_first, "mixed_alphabet": self.mixed, "skew_lower_caser": self.skew, "exception_list_text": self.list_text(), "list_api": self.list_api.as_ref().map(|(a, b, c)| vec![a.clone(), b.clone(), c.clone()]), "word": word,
                "reproduce": format!("let mut h = hyphenate::Hyphenator::default(); {} h.calculate_indices(&{}, {:?}).collect::<Vec<_>>()",
                     self.build_text(), if self.mixed { "L /* a LowerCaser with a/A, é/É, ḁ/Ḁ, 𝐚/𝐀 */" } else { "hyphenate::AsciiLowerCaser::default()" }, word)})
     }
@@ -311,7 +326,7 @@ fn check_config(idx: u64, cfg: &Config, words: &[(Vec<char>, Vec<String>)], acc:
                 }
             }
             acc.class(&class);
-            match catch(|| if cfg.mixed { real.calculate_indices(&HarnessLowerCaser, w).collect::<Vec<usize>>() } else { real.calculate_indices(&lc, w).collect::<Vec<usize>>() }) {
+            match catch(|| if cfg.skew { real.calculate_indices(&SkewLowerCaser, w).collect::<Vec<usize>>() } else if cfg.mixed { real.calculate_indices(&HarnessLowerCaser, w).collect::<Vec<usize>>() } else { real.calculate_indices(&lc, w).collect::<Vec<usize>>() }) {
                 Err(p) => acc.fail(idx, cfg.json(w), format!("{:?}", ex.positions), p.describe(), "calculate_indices panicked"),
                 Ok(got) => {
                     // the statement speaks of a set of positions: order and repetition are recorded only
@@ -713,14 +728,14 @@ fn main() {
         let strs = |v: &Value| -> Vec<String> { v.as_array().map(|a| a.iter().filter_map(|x| x.as_str().map(String::from)).collect()).unwrap_or_default() };
         let case = if case["case"].is_object() { case["case"].clone() } else { case };
         let word = case["word"].as_str().unwrap_or("").to_string();
-        let wl: Vec<char> = word.chars().filter_map(lc_all).collect();
+        let wl: Vec<char> = if case["skew_lower_caser"].as_bool().unwrap_or(false) { word.chars().filter_map(lc_skew).collect() } else { word.chars().filter_map(lc_all).collect() };
         if case["kind"] == "history" {
             let ops: Vec<u64> = case["ops"].as_array().map(|a| a.iter().filter_map(|x| x.as_u64()).collect()).unwrap_or_default();
             check_history(0, &ops, &mut acc);
         } else if case["kind"] == "plain" {
             check_plain(0, &plain, &plain_patterns, &plain_exceptions, &[(wl, vec![word])], &mut acc);
         } else {
-            let cfg = Config { patterns: strs(&case["patterns"]), exceptions: strs(&case["exceptions"]), exceptions_first: case["exceptions_first"].as_bool().unwrap_or(false), mixed: case["mixed_alphabet"].as_bool().unwrap_or(false), list_api: case["list_api"].as_array().map(|a| (a[0].as_str().unwrap_or("").to_string(), a[1].as_str().unwrap_or("").to_string(), a[2].as_str().unwrap_or("").to_string())) };
+            let cfg = Config { patterns: strs(&case["patterns"]), exceptions: strs(&case["exceptions"]), exceptions_first: case["exceptions_first"].as_bool().unwrap_or(false), mixed: case["mixed_alphabet"].as_bool().unwrap_or(false), list_api: case["list_api"].as_array().map(|a| (a[0].as_str().unwrap_or("").to_string(), a[1].as_str().unwrap_or("").to_string(), a[2].as_str().unwrap_or("").to_string())), skew: case["skew_lower_caser"].as_bool().unwrap_or(false) };
             check_config(0, &cfg, &[(wl, vec![word])], &mut acc);
         }
         ctx.finish_replay(acc);
@@ -801,7 +816,7 @@ fn main() {
         let (u, ex, around) = (&u, &ex, &around);
         ctx.family("exception-vs-pattern", &format!("(no pattern or one of the {} patterns with 1..3 letters, digits {{none,1,2,3,8,9}}) x one of the {} exception entries (every word of length 2..{} over {{a,b}} with every hyphen placement, plus leading/trailing hyphen) x the entry's word in every letter case and its 6 neighbours (one letter more/less at either end)", nu - 1, ne, ctx.pick(3, 4)), nu * ne, |idx, acc| {
             let (pi, ei) = ((idx / ne) as usize, (idx % ne) as usize);
-            let cfg = Config { patterns: if u[pi].is_empty() { vec![] } else { vec![u[pi].clone()] }, exceptions: vec![ex[ei].clone()], exceptions_first: false, mixed: false, list_api: None };
+            let cfg = Config { patterns: if u[pi].is_empty() { vec![] } else { vec![u[pi].clone()] }, exceptions: vec![ex[ei].clone()], exceptions_first: false, mixed: false, list_api: None, skew: false };
             check_config(idx, &cfg, &around[ei], acc);
             if idx % 99991 == 23 {
                 acc.sample(idx, || json!({"patterns": cfg.patterns, "exceptions": cfg.exceptions}));
@@ -826,7 +841,7 @@ fn main() {
             if j <= i {
                 return;
             }
-            let cfg = Config { patterns: vec![u[i as usize].clone(), u[j as usize].clone()], exceptions: vec![ex[ei].clone()], exceptions_first: false, mixed: false, list_api: None };
+            let cfg = Config { patterns: vec![u[i as usize].clone(), u[j as usize].clone()], exceptions: vec![ex[ei].clone()], exceptions_first: false, mixed: false, list_api: None, skew: false };
             check_config(idx, &cfg, &around[ei], acc);
         });
     }
@@ -838,7 +853,7 @@ fn main() {
         let (ex, pats) = (&ex, &pats);
         ctx.family("exception-lists-of-two", &format!("every ordered pair of the {ne} exception entries (length 2..{}) x {np} pattern sets of size <= 1 x both entries' words in every case and their neighbours", ctx.pick(3, 4)), ne * ne * np, |idx, acc| {
             let (a, b, pi) = ((idx / (ne * np)) as usize, (idx / np % ne) as usize, (idx % np) as usize);
-            let cfg = Config { patterns: if pats[pi].is_empty() { vec![] } else { vec![pats[pi].clone()] }, exceptions: vec![ex[a].clone(), ex[b].clone()], exceptions_first: false, mixed: false, list_api: None };
+            let cfg = Config { patterns: if pats[pi].is_empty() { vec![] } else { vec![pats[pi].clone()] }, exceptions: vec![ex[a].clone(), ex[b].clone()], exceptions_first: false, mixed: false, list_api: None, skew: false };
             let strip = |s: &str| s.replace('-', "");
             if strip(&ex[a]) == strip(&ex[b]) && ex[a] != ex[b] {
                 acc.count("same_word_entered_twice");
@@ -932,7 +947,7 @@ fn main() {
         let (longs, shorts, excs) = (&longs, &shorts, &excs);
         ctx.family("long-with-short", &format!("{nl} long patterns (L = 16,17,32) x {ns} patterns with 1..2 letters (digits {{none,2,9}}) x {ne} exception lists (none, 17 letters, 32 letters, 20 letters without hyphen) x the long-pattern words"), nl * ns * ne, |idx, acc| {
             let (li, si, ei) = ((idx / (ns * ne)) as usize, (idx / ne % ns) as usize, (idx % ne) as usize);
-            let cfg = Config { patterns: vec![longs[li].clone(), shorts[si].clone()], exceptions: if excs[ei].is_empty() { vec![] } else { vec![excs[ei].clone()] }, exceptions_first: false, mixed: false, list_api: None };
+            let cfg = Config { patterns: vec![longs[li].clone(), shorts[si].clone()], exceptions: if excs[ei].is_empty() { vec![] } else { vec![excs[ei].clone()] }, exceptions_first: false, mixed: false, list_api: None, skew: false };
             check_config(idx, &cfg, words, acc);
         });
     }
@@ -986,7 +1001,7 @@ fn main() {
         let (cased, pats) = (&cased, &pats);
         ctx.family("exception-entry-case", &format!("{ne} exception entries of length 2..3 with at least one upper-case letter x {np} pattern sets of size <= 1 x the word in every case and its neighbours"), ne * np, |idx, acc| {
             let (ei, pi) = ((idx / np) as usize, (idx % np) as usize);
-            let cfg = Config { patterns: if pats[pi].is_empty() { vec![] } else { vec![pats[pi].clone()] }, exceptions: vec![cased[ei].clone()], exceptions_first: false, mixed: false, list_api: None };
+            let cfg = Config { patterns: if pats[pi].is_empty() { vec![] } else { vec![pats[pi].clone()] }, exceptions: vec![cased[ei].clone()], exceptions_first: false, mixed: false, list_api: None, skew: false };
             acc.count("exception_entry_with_upper_case_letter");
             check_config(idx, &cfg, &words_around(&cased[ei]), acc);
         });
@@ -997,7 +1012,7 @@ fn main() {
         let (u, ex, around) = (&u, &ex, &around);
         ctx.family("exceptions-before-patterns", &format!("as exception-vs-pattern ({} patterns with 1..{} letters x {ne} entries of length 2..3), but insert_exception is called before load_patterns", nu - 1, ctx.pick(2, 3)), nu * ne, |idx, acc| {
             let (pi, ei) = ((idx / ne) as usize, (idx % ne) as usize);
-            let cfg = Config { patterns: if u[pi].is_empty() { vec![] } else { vec![u[pi].clone()] }, exceptions: vec![ex[ei].clone()], exceptions_first: true, mixed: false, list_api: None };
+            let cfg = Config { patterns: if u[pi].is_empty() { vec![] } else { vec![u[pi].clone()] }, exceptions: vec![ex[ei].clone()], exceptions_first: true, mixed: false, list_api: None, skew: false };
             check_config(idx, &cfg, &around[ei], acc);
         });
     }
@@ -1036,7 +1051,7 @@ fn main() {
         let (ue, ex, around) = (&ue, &ex, &around);
         ctx.family("mixed-exception-vs-pattern", &format!("(no pattern or one of the {} patterns with 1..2 letters over {{a, ḁ, 𝐚}}, digits {{none,1,2,9}}) x one of the {ne} exception entries of length 2..3 over these letters with every hyphen placement x the entry's word in every case and its neighbours", nu - 1), nu * ne, |idx, acc| {
             let (pi, ei) = ((idx / ne) as usize, (idx % ne) as usize);
-            let cfg = Config { patterns: if ue[pi].is_empty() { vec![] } else { vec![ue[pi].clone()] }, exceptions: vec![ex[ei].clone()], exceptions_first: false, mixed: true, list_api: None };
+            let cfg = Config { patterns: if ue[pi].is_empty() { vec![] } else { vec![ue[pi].clone()] }, exceptions: vec![ex[ei].clone()], exceptions_first: false, mixed: true, list_api: None, skew: false };
             check_config(idx, &cfg, &around[ei], acc);
         });
     }
@@ -1052,7 +1067,7 @@ fn main() {
         let (u, ex, around) = (&u, &ex, &around);
         ctx.family("exception-vs-digits-5-to-8", &format!("(no pattern or one of the {} patterns with 1..2 letters, digits {{none,5,6,7,8}}: both sides of the scores 6/7 under which exceptions are stored) x {ne} exception entries of length 2..3 x the entry's word in every case and its neighbours", nu - 1), nu * ne, |idx, acc| {
             let (pi, ei) = ((idx / ne) as usize, (idx % ne) as usize);
-            let cfg = Config { patterns: if u[pi].is_empty() { vec![] } else { vec![u[pi].clone()] }, exceptions: vec![ex[ei].clone()], exceptions_first: false, mixed: false, list_api: None };
+            let cfg = Config { patterns: if u[pi].is_empty() { vec![] } else { vec![u[pi].clone()] }, exceptions: vec![ex[ei].clone()], exceptions_first: false, mixed: false, list_api: None, skew: false };
             if u[pi].contains('6') || u[pi].contains('7') {
                 acc.count("exception_against_pattern_digit_6_or_7");
             }
@@ -1067,7 +1082,7 @@ fn main() {
             Config { exceptions: vec!["-".into()], ..Default::default() },
             Config { exceptions: vec!["a".into()], patterns: vec!["1a1".into()], ..Default::default() },
             Config { exceptions: vec!["a-".into(), "-a".into()], patterns: vec!["1a1".into()], ..Default::default() },
-            Config { exceptions: vec!["".into()], patterns: vec!["1a1".into()], exceptions_first: true, mixed: false, list_api: None },
+            Config { exceptions: vec!["".into()], patterns: vec!["1a1".into()], exceptions_first: true, mixed: false, list_api: None, skew: false },
             Config { patterns: vec!["é1".into()], mixed: true, ..Default::default() },
         ];
         let words: Vec<(Vec<char>, Vec<String>)> = ["", "a", "aa", "aaa", "é", "éa"].iter().map(|w| (w.chars().collect::<Vec<char>>(), case_variants(&w.chars().collect::<Vec<char>>(), true))).collect();
@@ -1155,7 +1170,7 @@ fn main() {
                     }
                 }
             }
-            let cfg = Config { patterns: psets[d[2] as usize].clone(), exceptions: entries, exceptions_first: false, mixed: false, list_api: Some((lead.to_string(), sep.to_string(), trail.to_string())) };
+            let cfg = Config { patterns: psets[d[2] as usize].clone(), exceptions: entries, exceptions_first: false, mixed: false, list_api: Some((lead.to_string(), sep.to_string(), trail.to_string())), skew: false };
             check_config(idx, &cfg, &words, acc);
         });
     }
@@ -1203,7 +1218,7 @@ fn main() {
         let (ue, ex, around) = (&ue, &ex, &around);
         ctx.family("symbol-exception-vs-pattern", &format!("(no pattern or one of the {} patterns with 1..2 letters over {{a, ', U+2019}}, digits {{none,1,9}}) x one of the {ne} exception entries (length 2 over {{a, ', U+2019, U+200D, @}} and {{U+1F600, a}}, length 3 over {{a, ', U+200D}}, every hyphen placement, so every such letter stands next to a hyphen) x the entry's word and its neighbours", nu - 1), nu * ne, |idx, acc| {
             let (pi, ei) = ((idx / ne) as usize, (idx % ne) as usize);
-            let cfg = Config { patterns: if ue[pi].is_empty() { vec![] } else { vec![ue[pi].clone()] }, exceptions: vec![ex[ei].clone()], exceptions_first: false, mixed: true, list_api: None };
+            let cfg = Config { patterns: if ue[pi].is_empty() { vec![] } else { vec![ue[pi].clone()] }, exceptions: vec![ex[ei].clone()], exceptions_first: false, mixed: true, list_api: None, skew: false };
             if nonalpha(&ue[pi]) {
                 acc.count("pattern_with_non_alphabetic_letter");
             }
@@ -1230,6 +1245,35 @@ fn main() {
         });
     }
 
+    // F14: a lower-case map that is not the identity on a..z (a, A, b, B -> b; c is not a letter)
+    {
+        // words: every spelling of length 1..4 over {a, b, A, B}; all of them lower-case to b^n
+        let mut words: Vec<(Vec<char>, Vec<String>)> = vec![];
+        for len in 1..=4usize {
+            let spellings: Vec<String> = (0..4u64.pow(len as u32)).map(|i| vcore::digits(i, &vec![4; len]).iter().map(|d| ['a', 'b', 'A', 'B'][*d as usize]).collect()).collect();
+            words.push((vec!['b'; len], spellings));
+        }
+        let u = pattern_universe_over(&['b'], 3, &design_menu);
+        let (u_r, words_r) = (&u, &words);
+        ctx.family("skew-single-pattern", &format!("each of the {} patterns with 1..3 letters b, anchors, digits {{none,1,2,3,8,9}} x every spelling of length 1..4 over {{a, b, A, B}}, looked up with a LowerCaser that maps a, A, b, B to b and knows no other letter", u.len()), u.len() as u64, |i, acc| {
+            let cfg = Config { patterns: vec![u_r[i as usize].clone()], skew: true, ..Default::default() };
+            acc.count("lowercaser_not_identity_on_ascii_lowercase");
+            check_config(i, &cfg, words_r, acc);
+        });
+        let mut ue = vec![String::new()];
+        ue.extend(pattern_universe_over(&['b'], 2, &design_menu));
+        let ex = exception_menu_over(&['b'], 2, 4);
+        let (nu, ne) = (ue.len() as u64, ex.len() as u64);
+        let (ue, ex) = (&ue, &ex);
+        ctx.family("skew-exception-vs-pattern", &format!("(no pattern or one of the {} patterns with 1..2 letters b) x one of the {ne} exception entries b..b of length 2..4 with every hyphen placement x every spelling of length 1..4 over {{a, b, A, B}} under the same LowerCaser", nu - 1), nu * ne, |idx, acc| {
+            let (pi, ei) = ((idx / ne) as usize, (idx % ne) as usize);
+            let cfg = Config { patterns: if ue[pi].is_empty() { vec![] } else { vec![ue[pi].clone()] }, exceptions: vec![ex[ei].clone()], skew: true, ..Default::default() };
+            acc.count("lowercaser_not_identity_on_ascii_lowercase");
+            check_config(idx, &cfg, words_r, acc);
+        });
+    }
+
+    ctx.require("lowercaser_not_identity_on_ascii_lowercase", "words are looked up with a LowerCaser that maps a to b and does not know c");
     ctx.require("query_repeated_after_insert_exception_for_its_word_in_other_case", "a spelling with upper-case letters is asked, then an exception for its lower-cased word is inserted, then the same spelling is asked again");
     ctx.require("query_repeated_after_load_patterns", "a word is asked, then patterns are loaded, then the same word is asked again");
     ctx.require("exception_redeclared", "the same word inserted twice with different positions (every ordered pair of entries, so both orders): the later one must win");
